@@ -11,7 +11,8 @@ SPLAY_CODE = {"insert": 0, "erase": 1, "exists": 2, "find": 3, "clear": 4}
 
 
 def lru_script(ops, flavour, nkeys):
-    return "%d %d %d %s" % (flavour, nkeys, len(ops), " ".join("%d %d %d" % (LRU_CODE[o["o"]], o["k"], o["v"] if flavour else 0) for o in ops))
+    """flavour 0 set<int>, 1 map<int, int>, 2 set<K>, 3 map<K, K> with K a type whose move operations empty their source"""
+    return "%d %d %d %s" % (flavour, nkeys, len(ops), " ".join("%d %d %d" % (LRU_CODE[o["o"]], o["k"], o["v"] if flavour % 2 else 0) for o in ops))
 
 
 def random_lru_ops(rng, n, nkeys):
@@ -68,9 +69,11 @@ def run(ctx):
     for t in tours:
         lru_lines.append(lru_script(t, 1, 3))
         lru_lines.append(lru_script(t, 0, 3))
+        lru_lines.append(lru_script(t, 3, 3))          # key / value type with source-emptying moves (round-5 seeded change: pop() using a moved-from key)
+        lru_lines.append(lru_script(t, 2, 3))
     for i in range(100 if quick else 3000):
         nk = rng.choice((6, 12))
-        lru_lines.append(lru_script(random_lru_ops(rng, rng.randint(5, 60), nk), i % 2, nk))
+        lru_lines.append(lru_script(random_lru_ops(rng, rng.randint(5, 60), nk), i % 4, nk))
     # SplayI: the top-down splay, splay_insert, splay_erase as the code has them; every history over a bounded key set
     SPI = "CONSTANTS Keys = {%s}\n MaxMult = %d\n Dup = %s\n Mutation = \"%s\"\nSPECIFICATION Spec\nINVARIANTS Contents SizeRight Results\nCHECK_DEADLOCK FALSE\n"
     for (ks, mm, dup) in ([("1, 2, 3", 3, "TRUE"), ("1, 2, 3, 4, 5", 1, "FALSE")] if quick else [("1, 2, 3", 4, "TRUE"), ("1, 2, 3, 4", 3, "TRUE"), ("1, 2, 3, 4, 5, 6, 7", 1, "FALSE")]):
